@@ -186,7 +186,7 @@ def rust_file(rel):
     return _files[p]
 
 
-def render_extract(ex, report):
+def render_extract(ex, report, vacuity=False):
     rf = rust_file(ex.relpath)
     try:
         if ex.kind == 'fn':
@@ -297,6 +297,8 @@ def render_extract(ex, report):
             out.append(Line(t[pos:], origin))
         else:
             out.append(Line(t, origin))
+        if i == 0 and vacuity and ex.contract:
+            out.append(Line('        proof { assert(false); } // VACUITY-PROBE', ('vspec', ex.vline)))
         if i == 0 and ex.body_start:
             out.extend(ex.body_start)
         if i in inserts_after:
@@ -304,7 +306,7 @@ def render_extract(ex, report):
     return out
 
 
-def assemble(vspec_path):
+def assemble(vspec_path, vacuity=False):
     parts = parse_vspec(vspec_path)
     report = []
     lines = []
@@ -312,7 +314,7 @@ def assemble(vspec_path):
         if kind == 'text':
             lines.extend(p)
         else:
-            lines.extend(render_extract(p, report))
+            lines.extend(render_extract(p, report, vacuity))
     return lines, report
 
 
